@@ -27,6 +27,7 @@ def fc_step(lf: bool, rf: bool, lm: Optional[str], rm: Optional[str]) -> bool:
     """
     post: _
     """
+    xs.path_start()
     l = EvaluatedFormatConstraint(format_constraint_fulfilled=lf, error_message=lm)
     r = EvaluatedFormatConstraint(format_constraint_fulfilled=rf, error_message=rm)
     t = FormatConstraintTransformer({})
@@ -50,6 +51,7 @@ def fc_leaf(ful: bool, msg: Optional[str], is_async: bool, text: Optional[str]) 
     """
     post: _
     """
+    xs.path_start()
     seen = []
     with xs.nt():
         if is_async:
@@ -93,6 +95,7 @@ def fc_empty(which: int) -> bool:
     pre: 0 <= which < 2
     post: _
     """
+    xs.path_start()
     env.setup()
     arg = None if which == 0 else ""
     try:
@@ -160,6 +163,7 @@ def fc_glue(idx: int, f0: bool, f1: bool, f2: bool, f3: bool, y: int, nomsg: boo
     pre: LO <= idx < HI and 0 <= y <= YMAX
     post: _
     """
+    xs.path_start()
     idx = xs.pick(idx, LO, HI)
     y = xs.pick(y, 0, YMAX + 1)
     with xs.nt():
